@@ -11,8 +11,8 @@
 // request/response carrier). Component texts are flattened with the codec of the separate
 // go.minekube.com/common module.
 //
-// Second layer (real adapter of proxy/bungee.go inside a running proxy): NOT built here, it
-// needs a logged-in player with a live backend connection, i.e. the full e2e plumbing.
+// Second layer (adapter_test.go): the real adapter of proxy/bungee.go inside a running proxy
+// built with the shared harness/e2e helpers; a few scenarios, positive observations only.
 package c26
 
 import (
@@ -605,15 +605,9 @@ func clauses(w *world, sub string, exp ref.Outcome, obs *observed) []string {
 				if sub == "ForwardToPlayer" {
 					add(payloadClause(e.Data, g.Data, false))
 				} else {
-					ef, _ := ref.DecodeFields(e.Data)
+					which := responseClause(e.Data, g.Data)
 					gf, _ := ref.DecodeFields(g.Data)
-					which := "response-layout"
-					for i := range ef {
-						if i >= len(gf) || ef[i] != gf[i] {
-							which = fmt.Sprintf("response-field-%d-differs", i)
-							break
-						}
-					}
+					ef, _ := ref.DecodeFields(e.Data)
 					if sub == "GetPlayerServer" && len(gf) == 3 && len(ef) == 3 && gf[2] != ef[2] && w.self.conn != nil && gf[2] == w.self.conn.server {
 						which = "reports-requesters-server"
 					}
@@ -645,6 +639,28 @@ func clauses(w *world, sub string, exp ref.Outcome, obs *observed) []string {
 		add("broadcast-mismatch")
 	}
 	return out
+}
+
+// responseClause names the first part of a response that differs from the reference:
+// the k-th writeUTF field, or the binary tail (int / short) behind the strings.
+func responseClause(exp, got []byte) string {
+	ef, et := ref.DecodeFields(exp)
+	gf, gt := ref.DecodeFields(got)
+	for i := range ef {
+		if i >= len(gf) || ef[i] != gf[i] {
+			return fmt.Sprintf("response-field-%d-differs", i)
+		}
+	}
+	if len(gf) > len(ef) {
+		return "response-has-extra-fields"
+	}
+	if !bytes.Equal(et, gt) {
+		if len(et) != len(gt) {
+			return "response-numeric-tail-width-differs"
+		}
+		return "response-numeric-tail-differs"
+	}
+	return "response-layout"
 }
 
 func panicClause(p string) string {
@@ -679,9 +695,8 @@ func TestC26(t *testing.T) {
 	r.Assume("fake Providers look players and servers up case-insensitively like BungeeCord/Velocity; they additionally offer SendMessage on players and ConnectedServerOf(player) so that a repaired responder can reach a named player (unused on a tree that lacks them)")
 	r.Assume("component texts are flattened with go.minekube.com/common's plain codec; formatting is not compared")
 	r.Set("adjudication", ref.Adjudication)
-	r.Set("second_layer", "not built: running the real adapter (proxy/bungee.go) needs a logged-in player with a live backend connection inside proxy.New (full e2e plumbing); the adapter was only read, see proposed_fixes/C26-*.md")
 
-	n := r.N(20000, 1000000)
+	n := r.N(20000, 3000000)
 	rng := r.Rng("requests")
 	perSub := map[string]int{}
 	perClass := map[string]int{}
@@ -782,7 +797,9 @@ func TestC26(t *testing.T) {
 			}
 		}
 		if len(exp.Outcomes) > 1 && len(bestClauses) == 0 {
-			altUsed[fmt.Sprintf("%s: alternative %d of %d", exp.Class, best+1, len(exp.Outcomes))]++
+			// alternative 1 = nothing forwarded / re-framed (BungeeCord), later ones = verbatim remainder (Velocity)
+			pc := exp.Class[strings.LastIndex(exp.Class, "/")+1:]
+			altUsed[fmt.Sprintf("%s %s: alternative %d of %d", sub, pc, best+1, len(exp.Outcomes))]++
 		}
 		for _, c := range bestClauses {
 			r.Violation("bungee:"+sub+":"+c,
@@ -806,6 +823,9 @@ func TestC26(t *testing.T) {
 	r.Count("messages_observed", nMsg)
 	r.Count("broadcasts_observed", nBcast)
 	r.Count("panics_observed", nPanic)
+
+	// ---- layer 2: the real adapter inside a running proxy ------------------------------------
+	runAdapterLayer(r)
 }
 
 // gateFrames keeps the Gate frames of a stack (function lines only).
